@@ -335,24 +335,40 @@ func ruleK1(p *Prog, r *Report) {
 			n++
 			name := p.Name(top)
 			b := in.Block()
-			// (1) level == 0
-			lvl := controlDependsOnValue(top, b, func(v ssa.Value) bool {
-				bo, ok := v.(*ssa.BinOp)
-				if !ok || bo.Op != token.EQL {
-					return false
+			// (1) level == 0: the rejection lies on the "level is zero" edge of a test of the list's level
+			// (`if level == 0 { ... }` or the early exit `if level != 0 { return nil }`)
+			lvl := false
+			for d := b; d != nil; d = d.Idom() {
+				ifi, ok := d.Instrs[len(d.Instrs)-1].(*ssa.If)
+				if !ok {
+					continue
+				}
+				bo, ok := ifi.Cond.(*ssa.BinOp)
+				if !ok || (bo.Op != token.EQL && bo.Op != token.NEQ) {
+					continue
 				}
 				z, isz := constInt(bo.Y)
 				if !isz || z != 0 {
-					return false
+					continue
 				}
+				isLevel := false
 				if fr, ok := asLoadedField(bo.X); ok && fr.Field == "level" {
-					return true
+					isLevel = true
 				}
 				if prm, ok := canon(bo.X).(*ssa.Parameter); ok && prm.Name() == "level" {
-					return true
+					isLevel = true
 				}
-				return false
-			})
+				if !isLevel {
+					continue
+				}
+				zeroEdge := 0
+				if bo.Op == token.NEQ {
+					zeroEdge = 1
+				}
+				if edgeDominates(d, zeroEdge, b) {
+					lvl = true
+				}
+			}
 			r.Decide(lvl, R, "limit-first-level-only:"+name, p.InstrPos(in), "limit rejection is control dependent on level == 0", "collision-limit rejection is not confined to the first digest level")
 			// (2) comparison with maxCollisionLimitPerDigest
 			lim := controlDependsOnValue(top, b, func(v ssa.Value) bool {
